@@ -229,10 +229,12 @@ theorem step_tk {s s' : St} {ob : Obs} (h : ChanWF s) (e : Ev) (hs : Conn.step s
               rw [← hs.1]
               simp only [emit, List.append_nil]
               rfl
-            · cases hk : o.kind <;> (
-                simp only [hk, Option.some.injEq, Prod.mk.injEq] at hs
-                rw [← hs.1]
-                simp [emit])
+            · split at hs
+              · cases hs
+              · cases hk : o.kind <;> (
+                  simp only [hk, Option.some.injEq, Prod.mk.injEq] at hs
+                  rw [← hs.1]
+                  simp [emit])
   | drvOpClosed =>
     simp only [Conn.step] at hs
     split at hs
